@@ -371,6 +371,17 @@ fn main() {
                 Err(p) => ctx.spec_fail(format!("witness {name}: check panics ({}) on {:?}", panic_msg(p), text)),
             }
         }
+        for (id, text, words) in VERDICTS {
+            ctx.count("verdict-probe");
+            let r = catch_unwind(AssertUnwindSafe(|| {
+                (abra_core::check("main.abra", provider(text, &[])).map_err(|e| e.to_string()), abra_core::compile_bytecode("main.abra", provider(text, &[])).map(|_| ()).map_err(|e| e.to_string()))
+            }));
+            match r {
+                Ok((Err(a), Err(_))) if a.contains(words) => {}
+                Ok((a, b)) => ctx.spec_fail(format!("verdict probe {id}: the text {:?} must be rejected with a diagnostic mentioning {:?}; check = {:?}, compile_bytecode = {:?}", text, words, a.map_err(|m| m.chars().take(200).collect::<String>()), b.map_err(|m| m.chars().take(80).collect::<String>()))),
+                Err(p) => ctx.spec_fail(format!("verdict probe {id}: the front end panics ({}) on {:?}", panic_msg(p), text)),
+            }
+        }
         // degenerate arguments of the entry points
         let r = catch_unwind(|| {
             let mut bad: Vec<String> = vec![];
